@@ -21,7 +21,7 @@ def run(rep, prog, tier):
     rep.assume('NOT DECIDED: symmetry, series/parallel laws, load-line equivalence for actual values; singular cases')
     interps = SR.analyse(prog)
     n = SR.emit(rep, 'R06.space', interps, ['port'])
-    if n < 8: raise AnalysisError(f'only {n} index-space obligations in open_circuit_impedance')
+    if n < 8: rep.error(f'only {n} index-space obligations in open_circuit_impedance')
     typestate(rep, prog)
     shape(rep, prog)
     formulas(rep, prog)
